@@ -956,6 +956,8 @@ def render() -> tuple[str, dict[str, str], Gen]:
             parts.append(f'{arr[kind]}[{idx[kind]}]!')
             idx[kind] += 1
         a = (' A' if g.uses_attr[k.name] else '') + (' AV' if k.vec_attrs else '')
+        for fname, (binder, arity) in k.extern.items():
+            a += f' (Vec.tableFn{arity} (AV "$fn:{fname}"))'       # the calls the implementation made, as a table (harness)
         call = f'{k.name}{a} ' + ' '.join(parts)
         if k.out == 'vec':
             out.append(f'  | "{k.name}" => some ({call})\n')
@@ -974,7 +976,7 @@ def render() -> tuple[str, dict[str, str], Gen]:
 def is_vector_kernel(k, g) -> bool:
     if not isinstance(k, SymKernel):
         return False
-    return k.out in ('vec', 'nat') or bool(k.vec_attrs) or any(kind in ('vec', 'nat') for _, kind in g.sig.get(k.name, []))
+    return k.out in ('vec', 'nat') or bool(k.vec_attrs) or bool(k.extern) or any(kind in ('vec', 'nat') for _, kind in g.sig.get(k.name, []))
 
 
 def regenerate() -> dict[str, str]:
@@ -1036,6 +1038,10 @@ class SymKernel:
                                        # of one mapping whose iterations touch only their own entries)
     loop_over: str = ''                # with loop=True: the iterable (source text) of the loop to take instead of `range(...)`
     cut_attr: dict = field(default_factory=dict)     # attribute chain ('pt.ground_speed') -> input name: an input once assigned
+    tuple_inputs: dict = field(default_factory=dict)  # parameter holding a tuple of arrays -> names of (listed) array inputs: the tuple
+                                       # is read with these generic elements (`tuple(f(v) for v in variables)` is per element)
+    extern: dict = field(default_factory=dict)       # name of a module-level function that cannot be read (a library call behind it) ->
+                                       # (binder name, arity): left uninterpreted, the kernel takes it as a function argument
 
 
 class V:
@@ -1137,6 +1143,7 @@ class Sym:
         self.no_bind = 0            # > 0 while evaluating the body of a pointwise lambda (no `let` outside the lambda)
         self.base_vars: dict[str, str] = {}
         self.vattr_keys: list[str] = []
+        self.used_extern: list[str] = []
 
     # ---- names
     def fresh(self, base: str) -> str:
@@ -1189,6 +1196,8 @@ class Sym:
             return v.c
         if isinstance(v, Cv) and v.c is None:
             return False
+        if isinstance(v, Tv):
+            return bool(v.items)                      # truthiness of a tuple of known length
         raise Untranslatable(f'not a condition: {what}')
 
 
@@ -1225,7 +1234,7 @@ class Sym:
         if len(v.bases) == 2:
             return f'(List.zipWith (fun {v.vars[0]} {v.vars[1]} => {body.e}) {v.bases[0]} {v.bases[1]})', d
         if len(v.bases) == 3:
-            return (f'(List.zipWith3 (fun {v.vars[0]} {v.vars[1]} {v.vars[2]} => {body.e}) {v.bases[0]} {v.bases[1]} '
+            return (f'(Vec.zipWith3 (fun {v.vars[0]} {v.vars[1]} {v.vars[2]} => {body.e}) {v.bases[0]} {v.bases[1]} '
                     f'{v.bases[2]})'), d
         raise Untranslatable('pointwise expression over more than three arrays')
 
@@ -1354,6 +1363,10 @@ class Sym:
         if isinstance(sl, ast.Name) and sl.id in self.spec.slice_objs:
             lo, hi = self.spec.slice_objs[sl.id]
             return self.lv_of_base(f'(Vec.slice {lean_ident(lo)} {lean_ident(hi)} {X})', d | {lo, hi})
+        if not isinstance(sl, (ast.Slice, ast.Tuple)):
+            iv = self.ev(sl, env)
+            if isinstance(iv, Nv):                     # `x[k]` for a length-typed `k ≥ 0`
+                return R(f'(Vec.getAt {X} {iv.e})', d | iv.deps)
         raise Untranslatable(f'array index {ast.unparse(sl)}')
 
     def vec_store(self, base: Lv, sl: ast.AST, v: V, env: dict) -> Lv:
@@ -1476,6 +1489,8 @@ class Sym:
                 return env['.'.join(ch)]
             if ch and ch[0] in ('np', 'numpy', 'math') and ch[1:] == ['inf'] and ch[0] not in env:
                 return Cv(INF)
+            if ch and ch[0] in ('np', 'numpy', 'math') and ch[1:] == ['pi'] and ch[0] not in env:
+                return R('(Lit.dec (3141592653589793) 15 : α)')     # the double `math.pi` as its shortest decimal
             if ch and '.'.join(ch) in self.spec.vec_attrs:
                 key = '.'.join(ch)
                 if key not in self.vattr_keys:
@@ -1573,6 +1588,17 @@ class Sym:
                     out[self.key_of(self._ev(e.key, env2))] = self.ev(e.value, env2)
                 return Dv(out)
             raise Untranslatable('dictionary comprehension over something that is not the ThrustMode enumeration')
+        if isinstance(e, ast.GeneratorExp) and len(e.generators) == 1 and not e.generators[0].ifs \
+                and isinstance(e.generators[0].target, ast.Name):
+            it = self._ev(e.generators[0].iter, env)
+            if not isinstance(it, Tv):
+                raise Untranslatable('generator over something that is not a tuple of known length')
+            out = []
+            for item in it.items:
+                env2 = dict(env)
+                env2[e.generators[0].target.id] = item
+                out.append(self.ev(e.elt, env2))
+            return Tv(out)
         if isinstance(e, ast.Call):
             return self.call(e, env)
         raise Untranslatable(f'expression {type(e).__name__}')
@@ -1668,7 +1694,7 @@ class Sym:
             if isinstance(rv, Cv) and rv.c is None:
                 if isinstance(lv, Cv):
                     return Cv((lv.c is None) == isinstance(op, ast.Is))
-                if isinstance(lv, (R, Dv, Tv)):
+                if isinstance(lv, (R, Dv, Tv, Lv, Nv)):
                     return Cv(isinstance(op, ast.IsNot))
             raise Untranslatable(f'identity test {ast.unparse(e)}')
         if isinstance(op, (ast.In, ast.NotIn)):
@@ -1750,6 +1776,49 @@ class Sym:
         if npf in ('array', 'asarray') and args and isinstance(args[0], (ast.List, ast.Tuple)) \
                 and all(isinstance(x, (ast.Constant, ast.UnaryOp)) for x in args[0].elts):
             return Tv([self._ev(x, env) for x in args[0].elts])          # a literal table
+        if npf in ('array', 'asarray') and len(args) == 1 and isinstance(args[0], (ast.List, ast.Tuple)) and not e.keywords:
+            rs = [self.real(self._ev(x, env), ast.unparse(x)) for x in args[0].elts]     # `np.array([a, b])` of scalars: a list
+            return self.lv_of_base('[' + ', '.join(r.e for r in rs) + ']', frozenset().union(*[r.deps for r in rs]) if rs else frozenset())
+        if npf == 'concatenate' and len(args) == 1 and isinstance(args[0], (ast.Tuple, ast.List)) and not e.keywords:
+            ms = [self.mat(self._ev(x, env), ast.unparse(x)) for x in args[0].elts]
+            return self.lv_of_base('(' + ' ++ '.join(m[0] for m in ms) + ')', frozenset().union(*[m[1] for m in ms]))
+        if npf == 'sign' and len(args) == 1:
+            return self.pointwise(lambda x: (lambda r: R(f'(ssign {r.e})', r.deps))(self.real(x, 'np.sign')), self._ev(args[0], env))
+        if npf == 'divide' and len(args) == 2 and {k.arg for k in e.keywords} == {'out', 'where'}:
+            kw = {k.arg: k.value for k in e.keywords}
+            if not (isinstance(kw['out'], ast.Call) and ast.unparse(kw['out'].func).endswith('zeros_like')):
+                a_, b_, o_ = self._ev(args[0], env), self._ev(args[1], env), self._ev(kw['out'], env)
+                c_ = self.test(kw['where'], env)
+
+                def div1(cc, x, y, o):
+                    q = self.sbin(ast.Div(), x, y, 'dividend', 'divisor')
+                    if isinstance(cc, bool):
+                        return q if cc else o
+                    return self.merge(cc, q, o, 'quot')
+                return self.pointwise(div1, c_, a_, b_, o_)
+        if isinstance(f, ast.Name) and f.id in self.spec.extern and f.id not in env and not e.keywords:
+            binder, arity = self.spec.extern[f.id]
+            if len(args) != arity:
+                raise Untranslatable(f'{f.id}: {len(args)} arguments where {arity} are expected')
+            if binder not in self.used_extern:
+                self.used_extern.append(binder)
+
+            def app(*xs):
+                rs = [self.real(x, f'argument of {f.id}') for x in xs]
+                return R(f'({binder} ' + ' '.join(r.e for r in rs) + ')', frozenset().union(*[r.deps for r in rs]))
+            return self.pointwise(app, *[self._ev(a, env) for a in args])
+        if isinstance(f, ast.Name) and f.id == 'tuple' and len(args) == 1 and isinstance(args[0], ast.GeneratorExp) and 'tuple' not in env:
+            return self._ev(args[0], env)
+        if isinstance(f, ast.Attribute) and f.attr == 'astype' and len(args) == 1 and ast.unparse(args[0]) in ('int', 'float'):
+            base = self._ev(f.value, env)
+
+            def cast(x):
+                if isinstance(x, Bv):
+                    return R(f'(if {x.e} then (Lit.dec (1) 0 : α) else (Lit.dec (0) 0 : α))', x.deps)
+                if ast.unparse(args[0]) == 'float':
+                    return self.real(x, 'astype(float)')
+                raise Untranslatable('astype(int) of a real')
+            return self.pointwise(cast, base)
         if npf == 'interp' and len(args) == 3 and not e.keywords:
             xp, fp = self._ev(args[1], env), self._ev(args[2], env)
             if isinstance(xp, Tv) and isinstance(fp, Tv) and len(xp.items) == len(fp.items) and len(xp.items) >= 2:
@@ -2405,6 +2474,8 @@ class Sym:
                 env['self'] = Ov('self')
             elif p in spec.consts:
                 env[p] = self.ev_in_module(mod, ast.parse(spec.consts[p], mode='eval').body)
+            elif p in spec.tuple_inputs:
+                env[p] = Tv([self.lv_of_base(lean_ident(n), frozenset([n])) for n in spec.tuple_inputs[p]])
             elif p in dict(inputs):
                 kind = dict(inputs)[p]
                 if kind == 'vec':
@@ -2471,6 +2542,8 @@ class Sym:
         a = '' if (optional_env and not self.attr_keys) else ' (A : String → α)'
         if spec.vec_attrs:
             a += ' (AV : String → List α)'
+        for _fn, (binder, arity) in spec.extern.items():
+            a += f' ({binder} : ' + ' → '.join(['α'] * (arity + 1)) + ')'
         body = ''.join(f'  let {n} : {ty} := {ex}\n' for n, ty, ex in keep)
         if optional_env and '(A "' not in body + r.e:
             a = a.replace(' (A : String → α)', '')
@@ -2620,6 +2693,35 @@ for _et, _tag in (('MTF', 'mtf'), ('TF', 'tf'), ('XX', 'other')):
     for _m in ('IDLE', 'APPROACH', 'CLIMB', 'TAKEOFF'):
         SYM_KERNELS.append(SymKernel(f'scope11_{_tag}_{_m}', 'emissions/ei/pmnvol.py', 'calculate_PMnvolEI_scope11', ['BP_Ratio'],
                                      f'profile/ThrustMode.{_m}', consts={'engine_type': repr(_et)}))
+# gridding (C04 / C05), fourth generation: the antimeridian split of grid.py — crossing latitude, the two part lengths (the geodesic
+# distance is a library call: left uninterpreted, a function argument `dist`), the two parts of every array (`np.concatenate`,
+# `np.array([…])`, element reads at the crossing index; the tuples of state / integrated arrays read with one generic element)
+_GR = 'gridding/grid.py'
+_GIN = [('lats', 'vec'), ('lons', 'vec'), ('dateline_crossing_idx', 'nat'), 'dateline_crossing_sign']
+_GEXT = {'great_circle_distance': ('dist', 4)}
+SYM_KERNELS.append(SymKernel('grid_cross_lat', _GR, 'Gridder._dateline_crossing_latitude', _GIN, 'return'))
+for _i, _t in enumerate(('first', 'second', 'total')):
+    SYM_KERNELS.append(SymKernel(f'grid_seg_len_{_t}', _GR, 'Gridder._calculate_segment_lengths', _GIN, f'return/{_i}', extern=_GEXT))
+_GSP = [('lats', 'vec'), ('lons', 'vec'), ('altitudes', 'vec'), ('times', 'vec'), ('sv', 'vec'), ('iv', 'vec'),
+        ('dateline_crossing_idx', 'nat'), 'dateline_crossing_sign']
+_GTI = {'state_variables': ['sv'], 'integrated_variables': ['iv']}
+for _part, _len in (('first', 'first_segment_length'), ('second', 'second_segment_length')):
+    for _t, _path in (('lats', 'return/0'), ('lons', 'return/1'), ('alts', 'return/2'), ('times', 'return/3'),
+                      ('state', 'return/4/0'), ('integ', 'return/5/0')):
+        SYM_KERNELS.append(SymKernel(f'grid_split_{_part}_{_t}', _GR, f'Gridder._dateline_split_{_part}_segment',
+                                     _GSP + [_len, 'total_segment_length'], _path, out='vec', tuple_inputs=_GTI))
+# … the antimeridian test of one segment (`np.sign(diff) * (|diff| > π)`), the share of a segment given to each of its pieces
+# (`np.divide(…, out=1 / count, where=segment length ≠ 0)`) and the pieces of an integrated value (value × share)
+SYM_KERNELS.append(SymKernel('grid_cross_sign', _GR, 'crosses_dateline', ['lon1', 'lon2'], 'return'))
+_GCT = 'Gridder._cell_idxs_touched_by_trajectory_with_state_and_integrated_vars'
+_GCE = {'np.repeat(count_subsegments, count_subsegments)': ('count_rep', 'vec'), 'np.repeat(variable, count_subsegments)': ('iv_rep', 'vec')}
+SYM_KERNELS.append(SymKernel('grid_fractions', _GR, _GCT, [('subsegment_distances', 'vec'), ('segment_distances_repeated', 'vec'),
+                                                         ('count_rep', 'vec')], 'subsegment_distance_fractions', out='vec',
+                             cut=('subsegment_distances', 'segment_distances_repeated'), cut_expr=_GCE,
+                             tuple_inputs={'integrated_variables': ['iv']}))
+SYM_KERNELS.append(SymKernel('grid_integ_values', _GR, _GCT, [('iv_rep', 'vec'), ('subsegment_distance_fractions', 'vec')],
+                             'integrated_variable_values/0', out='vec', cut=('subsegment_distance_fractions',), cut_expr=_GCE,
+                             tuple_inputs={'integrated_variables': ['iv']}))
 SYM_KERNELS.append(SymKernel('weather_ground_speed', 'weather.py', 'Weather.get_ground_speed',
                              ['true_airspeed', 'heading_rad', 'wind_u', 'wind_v'], 'return',
                              cut=('heading_rad', 'wind_u', 'wind_v')))
